@@ -98,12 +98,29 @@ class YAMLPath:
 
         # Compare the fully parsed (escaped) segments so that the notation,
         # redundant escapes, and demarcation style are all irrelevant
-        cmp_this = YAMLPath._stringify_yamlpath_segments(
-            YAMLPath(self).escaped, PathSeparators.FSLASH)
-        cmp_that = YAMLPath._stringify_yamlpath_segments(
-            YAMLPath(other).escaped, PathSeparators.FSLASH)
+        return (YAMLPath._comparable_segments(YAMLPath(self))
+                == YAMLPath._comparable_segments(YAMLPath(other)))
 
-        return cmp_this == cmp_that
+    @staticmethod
+    def _comparable_segments(path: "YAMLPath") -> str:
+        """
+        Render the segments of a YAML Path for comparison.
+
+        The sub-paths which Collectors gather are parsed in turn, lest two
+        Collectors differ merely by the notation of their expressions.
+        """
+        rendering = ""
+        for escaped_seg, unescaped_seg in zip(path.escaped, path.unescaped):
+            if escaped_seg[0] is PathSegmentTypes.COLLECTOR:
+                terms = unescaped_seg[1]
+                rendering += "{}({})".format(
+                    getattr(terms, "operation", ""),
+                    YAMLPath._comparable_segments(
+                        YAMLPath(getattr(terms, "expression", ""))))
+            else:
+                rendering += YAMLPath._stringify_yamlpath_segments(
+                    deque([escaped_seg]), PathSeparators.FSLASH)
+        return rendering
 
     def __ne__(self, other: object) -> bool:
         """Indicate non-equivalence of two YAMLPaths."""
